@@ -98,6 +98,11 @@ def one(seed):
     src = os.path.join(work, 'src', 'container')
     make_tree(src, rng)
     excludes = rng.choice([[], ['loose', 'packs.idx', 'packs'], ['packs.idx*'], ['loose', 'packs.idx*', 'packs'], ['x']])
+    if rng.random() < 0.5:
+        # general filter rules: includes before excludes, anchored / unanchored, directory-only, '*' and '**'
+        pats = ['/packs/0', '/packs/*', 'packs/*', '/container/packs/1', '/container/packs/*', 'a/', '/loose/', '*.idx', 'packs.idx-*', '**/x',
+                'a/b', '/a/**', 'f?', '/packs', 'loose/*', '/*/0', 'dup', '[xy]', '/container/loose/***'[:-1]]
+        excludes = [(rng.choice('+-'), rng.choice(pats)) for _ in range(rng.randint(1, 4))]
     trailing = rng.random() < 0.5
     use_link = rng.random() < 0.5
     pre_dest = rng.random() < 0.4
@@ -131,7 +136,10 @@ def one(seed):
     rsyncsim.CLOCK.stamp_tree(src)  # logical mtimes on the source, as the simulation does before every transfer
     args = ['rsync', '-azh', '--no-whole-file']
     for pat in excludes:
-        args += ['--exclude', pat]
+        if isinstance(pat, tuple):
+            args += ['--include' if pat[0] == '+' else '--exclude', pat[1]]
+        else:
+            args += ['--exclude', pat]
     if use_link:
         args += [f'--link-dest={link}']
     real = subprocess.run(args + [source + ('/' if trailing else ''), dests['real']], capture_output=True, text=True, check=False)
